@@ -11,6 +11,132 @@ from common import *
 import utpm_replay as U
 
 
+def api_immutability(rep, seed):
+    """every public operation / function / decomposition, and every pullback function called directly, leaves the
+    coefficient data of its arguments bit-identical (only the `out` adjoints of a pullback are written)"""
+    import numpy
+    algopy = load_algopy()
+    from algopy import UTPM
+    S = algopy.special
+    rng = numpy.random.RandomState(seed % 2 ** 31)
+    A0 = numpy.array([[3., 1., 0.5], [1., 4., 1.], [0.5, 1., 5.]])
+
+    def fresh(shape=(3, 3), D=3, P=2, pos=False, zero_lead=False):
+        d = rng.uniform(-1, 1, size=(D, P) + shape)
+        if pos:
+            d[0] = abs(d[0]) + 0.5
+        if zero_lead:
+            d[0, :, 0] = 0.0
+        return UTPM(d)
+
+    fwd = [("x+y", lambda x, y: x + y), ("x-y", lambda x, y: x - y), ("x*y", lambda x, y: x * y), ("x/y", lambda x, y: x / (y * y + 1.)),
+           ("x//y", lambda x, y: x // y), ("x//y zero leading coefficient", lambda x, y: x // zl(y)), ("x**y", lambda x, y: (x * x + 1.) ** y),
+           ("x**3", lambda x, y: x ** 3), ("2**x", lambda x, y: 2. ** x), ("dot", algopy.dot), ("outer", lambda x, y: algopy.outer(x[0], y[1])),
+           ("solve", lambda x, y: algopy.solve(x + A0, y)), ("inv", lambda x, y: algopy.inv(x + A0)), ("det", lambda x, y: algopy.det(x)),
+           ("logdet", lambda x, y: algopy.logdet(x + A0)), ("qr", lambda x, y: algopy.qr(x)[0]), ("qr_full", lambda x, y: algopy.qr_full(x[:, :2])[0]),
+           ("cholesky", lambda x, y: algopy.cholesky(algopy.dot(x, x.T) + A0)), ("lu", lambda x, y: algopy.lu(x)[1]), ("eigh", lambda x, y: algopy.eigh(x + x.T)[0]),
+           ("eig", lambda x, y: algopy.eig(UTPM((x + A0).data[:2]))[0]), ("svd", lambda x, y: algopy.svd(x)[1]), ("expm", lambda x, y: algopy.expm(x * 0.2)),
+           ("sum", lambda x, y: algopy.sum(x, axis=0)), ("prod", lambda x, y: algopy.prod(x[0])), ("trace", lambda x, y: algopy.trace(x)),
+           ("diag", lambda x, y: algopy.diag(x)), ("triu", lambda x, y: algopy.triu(x)), ("tile", lambda x, y: algopy.tile(x, 2)), ("reshape", lambda x, y: algopy.reshape(x, (9,))),
+           ("symvec", lambda x, y: algopy.symvec(x)), ("fft", lambda x, y: algopy.fft.fft(x)), ("ifft", lambda x, y: algopy.fft.ifft(x)),
+           ("minimum", lambda x, y: algopy.minimum(x, y)), ("maximum", lambda x, y: algopy.maximum(x, y)), ("abs", lambda x, y: abs(x)), ("neg", lambda x, y: -x),
+           ("x<y", lambda x, y: x < y), ("x==y", lambda x, y: x == y), ("max", lambda x, y: UTPM.max(x[0])), ("shift", lambda x, y: x.shift(1)),
+           ("extract_hess_vec", lambda x, y: UTPM.extract_hess_vec(1, UTPM(x.data.reshape(3, -1)[:, :3].copy()) if False else hv(x))),
+           ("extract_jacobian", lambda x, y: UTPM.extract_jacobian(x)), ("extract_hessian", lambda x, y: UTPM.extract_hessian(2, hs(x)))]
+    for name in ("exp", "expm1", "log", "log1p", "sqrt", "sin", "cos", "tan", "arcsin", "arccos", "arctan", "sinh", "cosh", "tanh", "sign", "absolute", "square", "negative", "reciprocal"):
+        fwd.append((name, lambda x, y, name=name: getattr(algopy, name)(dom(x, name))))
+    for name in ("erf", "erfi", "dawsn", "logit", "expit", "gammaln", "psi"):
+        fwd.append(("special." + name, lambda x, y, name=name: getattr(S, name)(dom(x, name))))
+
+    def zl(y):
+        z = y.clone(); z.data[0, :, 0] = 0.0; return z
+
+    def hv(x):
+        return UTPM(x.data.reshape(3, -1)[:, :3].copy().reshape(3, 3))
+
+    def hs(x):
+        return UTPM(x.data.reshape(3, -1)[:, :3].copy())
+
+    def dom(x, name):
+        if name in ("log", "sqrt", "reciprocal", "gammaln", "psi", "log1p"):
+            z = x.clone(); z.data[0] = abs(z.data[0]) + 0.5; return z
+        if name in ("arcsin", "arccos", "logit"):
+            z = x.clone(); z.data[0] = abs(z.data[0]) * 0.4 + 0.3; return z
+        return x
+    for name, f in fwd:
+        x, y = fresh(), fresh()
+        if name.startswith("x//y"):
+            x, y = fresh(shape=(3,), D=4), fresh(shape=(3,), D=4)
+        if name in ("extract_hess_vec",):
+            holder = {}
+            def f2(x, y, holder=holder):
+                holder["u"] = hv(x); holder["b"] = holder["u"].data.copy()
+                r = UTPM.extract_hess_vec(1, holder["u"]); r2 = UTPM.extract_hess_vec(1, holder["u"])
+                if not numpy.array_equal(holder["u"].data, holder["b"]) or not numpy.array_equal(r, r2):
+                    raise AssertionError("argument modified")
+                return r
+            f = f2
+        bx, by = x.data.copy(), y.data.copy()
+        rep.case(("immutability", name), nontrivial=True); rep.replayed(1)
+        try:
+            f(x, y)
+        except AssertionError:
+            rep.violation("%s modifies its argument" % name, {}); continue
+        except NotImplementedError:
+            continue
+        except Exception as ex:
+            if name.startswith("x//y"):
+                continue
+            rep.violation("%s raises %s" % (name, type(ex).__name__), {"what": repr(ex)[-200:]}); continue
+        if not (numpy.array_equal(x.data, bx) and numpy.array_equal(y.data, by)):
+            rep.violation("%s modifies its argument" % name, {})
+    # pullback functions called directly: (ybar, x, y) and (zbar, x, y, z) are inputs, only `out` is written
+    un = ["exp", "expm1", "log", "log1p", "sqrt", "sin", "cos", "tan", "square", "reciprocal", "negative", "absolute", "sign", "tanh", "arctan"]
+    for name in un:
+        pb = getattr(UTPM, "pb_" + name, None)
+        if pb is None:
+            continue
+        x = dom(fresh(), name); y = getattr(algopy, name)(x); ybar = fresh(); xbar = x.zeros_like()
+        snap = [x.data.copy(), y.data.copy(), ybar.data.copy()]
+        rep.case(("immutability", "pb_" + name), nontrivial=True); rep.replayed(1)
+        try:
+            pb(ybar, x, y, out=(xbar,))
+        except Exception as ex:
+            continue
+        if not all(numpy.array_equal(a, b) for a, b in zip(snap, [x.data, y.data, ybar.data])):
+            rep.violation("pb_%s modifies the forward values or the seed" % name, {})
+    import operator
+    for name, op in (("add", operator.add), ("sub", operator.sub), ("mul", operator.mul), ("truediv", operator.truediv), ("dot", algopy.dot)):
+        pb = getattr(UTPM, "pb_" + name)
+        x, y = fresh(), fresh(pos=True)
+        z = op(x, y); zbar = fresh(); xbar, ybar = x.zeros_like(), y.zeros_like()
+        snap = [x.data.copy(), y.data.copy(), z.data.copy(), zbar.data.copy()]
+        rep.case(("immutability", "pb_" + name), nontrivial=True); rep.replayed(1)
+        try:
+            pb(zbar, x, y, z, out=(xbar, ybar))
+        except Exception as ex:
+            rep.violation("pb_%s raises %s" % (name, type(ex).__name__), {"what": repr(ex)[-200:]}); continue
+        if not all(numpy.array_equal(a, b) for a, b in zip(snap, [x.data, y.data, z.data, zbar.data])):
+            rep.violation("pb_%s modifies the forward values or the seed" % name, {})
+    for name, f in (("inv", lambda x: algopy.inv(x + A0)), ("det", lambda x: algopy.det(x + A0)), ("trace", algopy.trace), ("transpose", lambda x: x.T),
+                    ("cholesky", lambda x: algopy.cholesky(algopy.dot(x, x.T) + A0))):
+        pb = getattr(UTPM, "pb_" + name, None)
+        if pb is None:
+            continue
+        x0 = fresh()
+        xa = (x0 + A0) if name in ("inv", "det") else (algopy.dot(x0, x0.T) + A0 if name == "cholesky" else x0)
+        y = {"inv": algopy.inv, "det": algopy.det, "trace": algopy.trace, "transpose": lambda a: a.T, "cholesky": algopy.cholesky}[name](xa)
+        ybar = UTPM(rng.uniform(-1, 1, size=y.data.shape)); xbar = xa.zeros_like()
+        snap = [xa.data.copy(), y.data.copy(), ybar.data.copy()]
+        rep.case(("immutability", "pb_" + name), nontrivial=True); rep.replayed(1)
+        try:
+            pb(ybar, xa, y, out=(xbar,))
+        except Exception:
+            continue
+        if not all(numpy.array_equal(a, b) for a, b in zip(snap, [xa.data, y.data, ybar.data])):
+            rep.violation("pb_%s modifies the forward values or the seed" % name, {})
+
+
 def run(rep, tier, seed):
     q = tier == "quick"
     configs = [
@@ -28,6 +154,7 @@ def run(rep, tier, seed):
                  simulate=4000, depth=5),
         ]
     U.machine_check(rep, configs, "C14", variants=(0,))
+    api_immutability(rep, seed)
     U.self_test(rep)
     return rep.finish("one case = one maximal behaviour over {getitem, transpose, x op y, x op= y, x[ix] = y} incl. both operands the "
                       "same object or views of each other; non-trivial = at least one action; distinct by (config, behaviour)")
